@@ -8,7 +8,7 @@ F = "pygamma_agreement/cst.py::"
 register_class("CorpusShufflingTool", "pygamma_agreement/cst.py")
 CONT = lambda: ObjT("Continuum")      # noqa: E731
 CST = lambda: ObjT("CorpusShufflingTool", magnitude=RealT(), _reference_annotator=StrT(), _reference_continuum=CONT(),     # noqa: E731
-                   _categories=ObjT("SetStr"), SHIFT_FACTOR=RealT())
+                   _categories=ObjT("SetStr"), SHIFT_FACTOR=RealT(), SPLIT_FACTOR=RealT())
 CST_MACROS = VIEW_MACROS + [Macro("ref", [], "self._reference_continuum"), Macro("ra", [], "self._reference_annotator"),
                             Macro("isname", ["a"], "exists(k, 0, len(new_annotators), new_annotators[k] == a)")]
 
@@ -143,4 +143,34 @@ contract(F + "CorpusShufflingTool.shift_shuffle",
                 ("after", "shift_max = ...", "U0 = Us(continuum)"),
                 ("after", "shift_max = ...", "assert SM >= 0 and implies(self.magnitude == 0, SM == 0)"),
                 ("after", "shift_max = ...", "assert forall([(a, Real), (v, Unit)], implies(Us(continuum)[a][v], image_of_old(a, v)))")],
+         serves={"C19"})
+
+# K4 (splitting), set level: every unit of the result lies inside an old unit of the same annotator and keeps its label; nothing else changes.
+# The two counting clauses (total duration kept, one unit more per announced split) need the genericity hypothesis G and finite-sum
+# reasoning over sets: bounded only.
+SP_MACROS = VIEW_MACROS + [
+    Macro("ref", [], "self._reference_continuum"),
+    Macro("inside", ["u", "v"], "v.haslab == u.haslab and v.lab == u.lab and u.s <= v.s and v.e <= u.e"),
+    Macro("piece_of_old", ["a", "v"], "exists([(u, Unit)], U0[a][u] and inside(u, v))"),
+]
+contract(F + "CorpusShufflingTool.splits_shuffle",
+         params={"self": CST(), "continuum": CONT()}, modifies=["continuum"], macros=SP_MACROS,
+         ghost_vars={"U0": ("RUSet", None)},
+         requires=["RI(continuum)", "not same_obj(continuum, self._reference_continuum)", "RI(ref())", "Nkeys(ref()) >= 1",
+                   "forall(k, 0, Nkeys(continuum), Cnt(continuum)[Kseq(continuum)[k]] >= 1)", "self.SPLIT_FACTOR == 2.5"],
+         raises={"ValueError": {}},
+         ensures=[cl("Ann(continuum) == old(Ann(continuum))", "C19", name="same-annotators"),
+                  cl("forall([(a, Real), (v, Unit)], implies(Us(continuum)[a][v], exists([(u, Unit)], old(Us(continuum))[a][u] and inside(u, v))))",
+                     "C19", name="K4-every-unit-is-a-piece-of-an-old-unit-of-the-same-annotator-label-kept"),
+                  cl("RI(continuum)", "C19", name="RI")],
+         loops={"L0": dict(match="for _ in range(int(self.magnitude * self.SPLIT_FACTOR * ...", modifies=["continuum"],
+                           inv=["Ann(continuum) == old(Ann(continuum))", "RI(continuum)",
+                                "forall([(a, Real), (v, Unit)], implies(Us(continuum)[a][v], piece_of_old(a, v)))",
+                                "forall(k, 0, Nkeys(continuum), Cnt(continuum)[Kseq(continuum)[k]] >= 1)"]),
+                "L0.0": dict(match="for annotator in continuum.annotators", index="kA", modifies=["continuum"],
+                             inv=["Ann(continuum) == old(Ann(continuum))", "RI(continuum)",
+                                  "forall([(a, Real), (v, Unit)], implies(Us(continuum)[a][v], piece_of_old(a, v)))",
+                                  "forall(k, 0, Nkeys(continuum), Cnt(continuum)[Kseq(continuum)[k]] >= 1)"])},
+         hooks=[("before", "@entry", "U0 = Us(continuum)"),
+                ("before", "@entry", "model_inv wfmap(continuum)")],
          serves={"C19"})
